@@ -38,8 +38,12 @@ def run(args, rep):
     scoped += [c for c in c2 if c['ctx'] in ('dataclass_after_inner', 'namedtuple_after_inner', 'class_after_dataclass') and any(st[0] in ('annval', 'annnoval') for st in c['blk'])
                and ('ann_class' in c['opts'])]
     rng.shuffle(scoped)
-    scoped = scoped[:3000]
-    cases = c1 + (c2[:8000] + [c for c in scoped if c not in c2[:8000]] if args.tier == 'quick' else c2)
+    # thorough: a sample seven times the quick one (all 380 000 length-2 cases do not finish in hours; the model run covers them all, and length 3 on the core alphabet)
+    n2, nscoped = (8000, 3000) if args.tier == 'quick' else (60000, 20000)
+    scoped = scoped[:nscoped]
+    head = c2[:n2]
+    seen = set(id(c) for c in head)
+    cases = c1 + head + [c for c in scoped if id(c) not in seen]
     jobs = [{'id': 's%d' % k, 'ctx': c['ctx'], 'env': c['env'], 'blk': c['blk'], 'opts': c['opts'], 'm': c['m']} for k, c in enumerate(cases)]
     # every case in which the module uses the __doc__ name, once per spelling of that use (read, augmented assignment, assignment, read in a function, del)
     for j in list(jobs):
